@@ -11,11 +11,18 @@ package main
 // One `run` line is one whole scenario (see lean/Driver/MG.lean for the grammar, which both
 // sides parse):
 //
-//   run <target> [/ <target>]           target  = T<0|1> P<probe flags|-> <attempt>*
+//   run  <target> [/ <target>]          target  = T<0..3> P<probe flags|-> <attempt>*
+//   runc <target> [/ <target>]          the same scenario with the REAL connection.Manager (scripted Dial)
+//                                       as the manager's ConnectionManager (mg_conn.go)
+//             T digit: bit 0 = the target has a receive timeout, bit 1 = the target has two next hops
+//             (in even attempts the first Connection call fails and the second follows the script; in odd
+//             attempts the first one does)
 //   attempt = M | D | O | S | R<msgs><end>   followed by an optional injection  +<act><where>[A]
 //             msgs over {u,s,e,n} (update, sync, error response, nil response), end ! (error
 //             status) . (EOF) ~ (silence);  act = k (Reconnect) | x (Remove);  where = m (while
-//             the attempt is in the credentials lookup) | d (while it is dialling) | <j> (after
+//             the attempt is in the credentials lookup) | d (while it is dialling: the dial then fails
+//             with the cancellation) | s (while it is dialling and the dial then SUCCEEDS: Connection
+//             returns err == nil although its context is cancelled; attempts O, S, R only) | <j> (after
 //             the client has processed j messages of the stream) | b (right after the attempt,
 //             during backoff: inherently racy);  A = Add the target again after the Remove.
 //
@@ -27,7 +34,8 @@ package main
 // and the trace is not printed (`tr=?`).
 //
 // Observation per target:  tr=<trace before Remove was called>|<drain> ret=<API return classes>
-// acc=<discipline automaton accepted the raw trace> quiet=<no callback after Remove returned>.
+// acc=<discipline automaton accepted the raw trace> quiet=<no callback after Remove returned>
+// acq=<connections acquired> leak= twice= uad= (the ledger of mg_conn.go; `runc` adds ` # cm= open=`).
 // Letters: C connect, U<j> update (j = position of the message in its stream), S sync, R reset,
 // E connectError, M monitorError.  In the drain, trailing "E,M" pairs are dropped (after the
 // target context is cancelled the select in retryMonitor may take the timer arm any number of
@@ -47,11 +55,13 @@ import (
 
 	"google.golang.org/grpc"
 	"google.golang.org/grpc/codes"
+	"google.golang.org/grpc/connectivity"
 	"google.golang.org/grpc/credentials/insecure"
 	"google.golang.org/grpc/metadata"
 	"google.golang.org/grpc/status"
 	"google.golang.org/grpc/test/bufconn"
 
+	"github.com/openconfig/gnmi/connection"
 	"github.com/openconfig/gnmi/manager"
 	gpb "github.com/openconfig/gnmi/proto/gnmi"
 	tpb "github.com/openconfig/gnmi/proto/target"
@@ -61,6 +71,7 @@ const (
 	mgAtMeta    = -1
 	mgAtDial    = -2
 	mgAtBackoff = -3
+	mgAtDialOK  = -4
 
 	mgRecvTimeout = 60 * time.Millisecond
 	mgGraceRun    = 2 * time.Millisecond  // after each scenario
@@ -81,6 +92,7 @@ type mgAttempt struct {
 
 type mgTargetSpec struct {
 	rt       bool
+	hops2    bool
 	probes   string
 	attempts []mgAttempt
 }
@@ -123,6 +135,11 @@ func mgParseAttempt(tok string) (a mgAttempt, err error) {
 			a.injAt = mgAtDial
 		case "b":
 			a.injAt = mgAtBackoff
+		case "s":
+			if a.kind != 'O' && a.kind != 'S' && a.kind != 'R' {
+				return a, errors.New("s needs a dial that succeeds")
+			}
+			a.injAt = mgAtDialOK
 		default:
 			if strings.HasPrefix(w, "c") {
 				// from inside the Update callback of message j (the monitor goroutine is not in Recv)
@@ -155,7 +172,8 @@ func mgParseTargets(args []string) ([]mgTargetSpec, error) {
 		if len(cur) < 2 || len(cur[0]) != 2 || cur[0][0] != 'T' || cur[1] == "" || cur[1][0] != 'P' {
 			return errors.New("bad target header")
 		}
-		t := mgTargetSpec{rt: cur[0][1] == '1', probes: strings.Trim(cur[1][1:], "-")}
+		t := mgTargetSpec{rt: cur[0][1] == '1' || cur[0][1] == '3', hops2: cur[0][1] == '2' || cur[0][1] == '3',
+			probes: strings.Trim(cur[1][1:], "-")}
 		for _, tok := range cur[2:] {
 			a, err := mgParseAttempt(tok)
 			if err != nil {
@@ -190,6 +208,11 @@ type mgScenario struct {
 	lis  *bufconn.Listener
 	envs map[string]*mgEnv
 	gpb.UnimplementedGNMIServer
+
+	acct   mgAcct              // every successful Connection return and the calls of its done
+	real   *connection.Manager // `runc`: the manager under test is wired to the real connection.Manager
+	dmu    sync.Mutex
+	dialed []*grpc.ClientConn // every connection the scripted dial created
 }
 
 type mgEnv struct {
@@ -216,6 +239,7 @@ type mgEnv struct {
 	pendingReadd   bool
 	removeDone     chan struct{}
 	ready          chan struct{} // closed once the API caller is past Add (and the duplicate Add)
+	hopAtt         int          // two next hops: the attempt whose first Connection call was failed already
 	tDial, tLastCb time.Time // receive-timeout targets: end of Connection / last C,U,S callback
 	disturbed      bool      // the harness itself was too slow for the receive timeout: re-run
 }
@@ -379,59 +403,100 @@ func (sc *mgScenario) dial(idx int, opts ...grpc.DialOption) (*grpc.ClientConn, 
 		grpc.WithTransportCredentials(insecure.NewCredentials()),
 		grpc.WithStreamInterceptor(func(ctx context.Context, desc *grpc.StreamDesc, cc *grpc.ClientConn, method string,
 			streamer grpc.Streamer, o ...grpc.CallOption) (grpc.ClientStream, error) {
+			sc.acct.streamOpened(mgTargetOf(ctx), cc)
 			return streamer(metadata.AppendToOutgoingContext(ctx, "mg-attempt", strconv.Itoa(idx)), desc, cc, method, o...)
 		}))
-	return grpc.NewClient("passthrough:///bufnet", opts...)
+	conn, err := grpc.NewClient("passthrough:///bufnet", opts...)
+	if err == nil {
+		sc.dmu.Lock()
+		sc.dialed = append(sc.dialed, conn)
+		sc.dmu.Unlock()
+	}
+	return conn, err
 }
 
-// Connection implements manager.ConnectionManager.
+// Connection implements manager.ConnectionManager: the ledger (mg_conn.go) in front of either the
+// harness's own scripted connections (done closes the connection) or the real connection.Manager,
+// whose Dial function is the same script.
 func (sc *mgScenario) Connection(ctx context.Context, addr, dialer string) (*grpc.ClientConn, func(), error) {
-	md, _ := metadata.FromOutgoingContext(ctx)
-	names := md.Get(manager.Target)
-	if len(names) != 1 || sc.envs[names[0]] == nil {
-		return nil, func() {}, errors.New("harness: no target metadata")
+	var conn *grpc.ClientConn
+	var done func()
+	var err error
+	if sc.real != nil {
+		conn, done, err = sc.real.Connection(ctx, addr, dialer)
+	} else if conn, err = sc.scriptDial(ctx, addr); err == nil {
+		c := conn
+		done = func() { c.Close() }
 	}
-	e := sc.envs[names[0]]
+	if err != nil {
+		if done == nil {
+			done = func() {}
+		}
+		return nil, done, err
+	}
+	return conn, sc.acct.acquire(mgTargetOf(ctx), conn, done), nil
+}
+
+// scriptDial is the scripted dial of the current attempt of the target named in ctx; it is also the
+// connection.Dial of `runc` scenarios (there it runs on connection.Manager's dial goroutine while
+// Connection waits for it).
+func (sc *mgScenario) scriptDial(ctx context.Context, _ string, _ ...grpc.DialOption) (*grpc.ClientConn, error) {
+	e := sc.envs[mgTargetOf(ctx)]
+	if e == nil {
+		return nil, errors.New("harness: no target metadata")
+	}
 	e.mu.Lock()
 	idx := e.att - 1
+	// two next hops: in even attempts the first one tried is unreachable and createConn goes on to the other;
+	// in odd attempts the first one tried answers (createConn must stop there: one acquisition per attempt)
+	firstHop := e.spec.hops2 && e.hopAtt != idx && idx%2 == 0
+	if firstHop {
+		e.hopAtt = idx
+	}
 	e.mu.Unlock()
 	a, ok := e.attempt(idx)
 	if !ok {
-		return nil, func() {}, errors.New("harness: attempt beyond the script")
+		return nil, errors.New("harness: attempt beyond the script")
+	}
+	if firstHop {
+		// the first next hop of the attempt is unreachable: createConn goes on to the second one
+		return nil, errors.New("scripted next hop failure")
 	}
 	if a.injAct != 0 && a.injAt == mgAtDial {
 		e.inject(ctx, a)
 	}
 	if err := ctx.Err(); err != nil {
-		return nil, func() {}, err
+		return nil, err
 	}
+	var conn *grpc.ClientConn
+	var err error
 	switch a.kind {
 	case 'D':
-		return nil, func() {}, errors.New("scripted dial failure")
+		return nil, errors.New("scripted dial failure")
 	case 'O':
-		conn, err := sc.dial(idx)
-		if err != nil {
-			return nil, func() {}, err
+		if conn, err = sc.dial(idx); err == nil {
+			conn.Close() // opening a stream on it fails
 		}
-		conn.Close() // opening a stream on it fails
-		return conn, func() {}, nil
 	case 'S':
 		// the subscription request does not fit: Send fails
-		conn, err := sc.dial(idx, grpc.WithDefaultCallOptions(grpc.MaxCallSendMsgSize(1)))
-		if err != nil {
-			return nil, func() {}, err
-		}
-		return conn, func() { conn.Close() }, nil
+		conn, err = sc.dial(idx, grpc.WithDefaultCallOptions(grpc.MaxCallSendMsgSize(1)))
 	default:
-		conn, err := sc.dial(idx)
-		if err != nil {
-			return nil, func() {}, err
+		if conn, err = sc.dial(idx); err == nil {
+			e.mu.Lock()
+			e.tDial = time.Now()
+			e.mu.Unlock()
 		}
-		e.mu.Lock()
-		e.tDial = time.Now()
-		e.mu.Unlock()
-		return conn, func() { conn.Close() }, nil
 	}
+	if err != nil {
+		return nil, err
+	}
+	if a.injAct != 0 && a.injAt == mgAtDialOK {
+		// Reconnect / Remove while the dial is in flight, and the dial succeeds all the same: the
+		// caller gets err == nil on a context that is cancelled by now (connection.Manager.Connection
+		// does not look at its context once it waits for the dial; a non-blocking grpc dial does not fail)
+		e.inject(ctx, a)
+	}
+	return conn, nil
 }
 
 func mgResponse(kind byte, j int) *gpb.SubscribeResponse {
@@ -500,8 +565,12 @@ func (sc *mgScenario) Subscribe(stream gpb.GNMI_SubscribeServer) error {
 }
 
 func (e *mgEnv) target() *tpb.Target {
+	addrs := []string{e.name + "-hop0:1"}
+	if e.spec.hops2 {
+		addrs = append(addrs, e.name+"-hop1:1")
+	}
 	t := &tpb.Target{
-		Addresses:   []string{"shared-address:1"},
+		Addresses:   addrs,
 		Credentials: &tpb.Credentials{Username: "u", PasswordId: e.name},
 	}
 	if e.spec.rt {
@@ -634,11 +703,24 @@ func (e *mgEnv) observation() string {
 	if !e.racy && e.removeCalledAt >= 0 && e.removeCalledAt <= len(e.events) {
 		tr = strings.Join(e.events[:e.removeCalledAt], ",") + "|" + strings.Join(mgStripEM(e.events[e.removeCalledAt:]), ",")
 	}
-	return fmt.Sprintf("tr=%s ret=%s acc=%s quiet=%s", tr, rets, b01(mgAccepts(e.events)), b01(e.late == 0))
+	acq, leak, twice, uad := e.sc.acct.counts(e.name)
+	acqs := "?"
+	if !e.racy {
+		acqs = strconv.Itoa(acq)
+	}
+	return fmt.Sprintf("tr=%s ret=%s acc=%s quiet=%s acq=%s leak=%d twice=%d uad=%d", tr, rets, b01(mgAccepts(e.events)),
+		b01(e.late == 0), acqs, leak, twice, uad)
 }
 
-func mgNewScenario(specs []mgTargetSpec) (*mgScenario, error) {
+func mgNewScenario(specs []mgTargetSpec, real bool) (*mgScenario, error) {
 	sc := &mgScenario{envs: map[string]*mgEnv{}, lis: bufconn.Listen(1 << 20)}
+	if real {
+		cm, err := connection.NewManagerCustom(map[string]connection.Dial{connection.DEFAULT: sc.scriptDial})
+		if err != nil {
+			return nil, err
+		}
+		sc.real = cm
+	}
 	cb := func(ev string) func(string) {
 		return func(name string) {
 			if e := sc.envs[name]; e != nil {
@@ -690,7 +772,7 @@ func mgNewScenario(specs []mgTargetSpec) (*mgScenario, error) {
 	}
 	sc.m = m
 	for i, s := range specs {
-		e := &mgEnv{sc: sc, name: "t" + strconv.Itoa(i), spec: s, removeCalledAt: -1, removeDone: make(chan struct{})}
+		e := &mgEnv{sc: sc, name: "t" + strconv.Itoa(i), spec: s, removeCalledAt: -1, removeDone: make(chan struct{}), hopAtt: -1}
 		e.cond = sync.NewCond(&e.mu)
 		for _, a := range s.attempts {
 			if (a.injAt == mgAtBackoff && a.injAct == 'k') || a.readd {
@@ -747,7 +829,20 @@ func (sc *mgScenario) run() string {
 	for _, n := range names {
 		obs = append(obs, sc.envs[n].observation())
 	}
-	return strings.Join(obs, " / ")
+	res := strings.Join(obs, " / ")
+	if sc.real != nil && !strings.Contains(res, "stuck") {
+		// every target is removed: the real connection manager holds nothing and every connection is closed
+		open := 0
+		sc.dmu.Lock()
+		for _, c := range sc.dialed {
+			if c.GetState() != connectivity.Shutdown {
+				open++
+			}
+		}
+		sc.dmu.Unlock()
+		res += fmt.Sprintf(" # cm=%d open=%d", len(connection.VerifSnapshot(sc.real)), open)
+	}
+	return res
 }
 
 // ---------------------------------------------------------------- component
@@ -797,7 +892,7 @@ func (c *mgComp) Run(args []string) string {
 			return "bad-op"
 		}
 		return mgPace(args[1])
-	case "run":
+	case "run", "runc":
 		specs, err := mgParseTargets(args[1:])
 		if err != nil {
 			return "bad-op"
@@ -806,7 +901,7 @@ func (c *mgComp) Run(args []string) string {
 			manager.RetryBaseDelay = time.Millisecond
 			manager.RetryMaxDelay = 2 * time.Millisecond
 		})
-		sc, err := mgNewScenario(specs)
+		sc, err := mgNewScenario(specs, args[0] == "runc")
 		if err != nil {
 			return "bad-op"
 		}
@@ -830,7 +925,7 @@ func (c *mgComp) Run(args []string) string {
 			// re-run on a fresh manager; the discarded run no longer counts
 			sc.srv.Stop()
 			c.scenarios = c.scenarios[:len(c.scenarios)-1]
-			if sc, err = mgNewScenario(specs); err != nil {
+			if sc, err = mgNewScenario(specs, args[0] == "runc"); err != nil {
 				return "bad-op"
 			}
 		}
@@ -853,8 +948,10 @@ func (c *mgComp) Run(args []string) string {
 		if d := mgGraceEnd - time.Since(last); d > 0 && !last.IsZero() {
 			time.Sleep(d)
 		}
-		late, acc := 0, true
+		late, acc, leak := 0, true, 0
 		for _, sc := range c.scenarios {
+			_, l, _, _ := sc.acct.counts("")
+			leak += l
 			for _, e := range sc.envs {
 				e.mu.Lock()
 				late += e.late
@@ -863,7 +960,7 @@ func (c *mgComp) Run(args []string) string {
 			}
 		}
 		c.closeAll()
-		return fmt.Sprintf("late=%d acc=%s", late, b01(acc))
+		return fmt.Sprintf("late=%d acc=%s leak=%d", late, b01(acc), leak)
 	}
 	return "bad-op"
 }
@@ -884,6 +981,8 @@ func mgAttemptString(a mgAttempt) string {
 			s += "d"
 		case mgAtBackoff:
 			s += "b"
+		case mgAtDialOK:
+			s += "s"
 		default:
 			if a.injCb {
 				s += "c"
@@ -909,8 +1008,19 @@ func mgStreamPoints(msgs string) []int {
 }
 
 func mgGenTarget(r *rand.Rand) string {
+	conn := genProfile == "conn" // emphasis on the connection side (C16): dial injections, short streams
 	rt := r.Intn(100) < 12
-	toks := []string{"T" + b01(rt)}
+	if conn {
+		rt = r.Intn(100) < 30
+	}
+	hdr := 0
+	if rt {
+		hdr |= 1
+	}
+	if r.Intn(100) < 20 || (conn && r.Intn(100) < 25) {
+		hdr |= 2 // two next hops
+	}
+	toks := []string{"T" + strconv.Itoa(hdr)}
 	probes := ""
 	for _, f := range "creznaRC" {
 		if r.Intn(3) == 0 {
@@ -952,6 +1062,13 @@ func mgGenTarget(r *rand.Rand) string {
 			if a.kind != 'M' {
 				places = append(places, mgAtDial)
 			}
+			if a.kind == 'O' || a.kind == 'S' || a.kind == 'R' {
+				// cancelled while dialling, and the dial succeeds (also with a receive timeout configured)
+				places = append(places, mgAtDialOK, mgAtDialOK)
+				if conn {
+					places = append(places, mgAtDialOK, mgAtDialOK, mgAtDial)
+				}
+			}
 			if a.kind == 'R' && !rt {
 				pts := mgStreamPoints(a.msgs)
 				places = append(places, pts...)
@@ -988,7 +1105,11 @@ func (c *mgComp) Gen(r *rand.Rand, tier string) []string {
 	seq := []string{"new"}
 	k := 2 + r.Intn(4)
 	for i := 0; i < k; i++ {
-		line := "run " + mgGenTarget(r)
+		op := "run "
+		if r.Intn(3) == 0 || (genProfile == "conn" && r.Intn(2) == 0) {
+			op = "runc " // the same grammar, the real connection.Manager underneath
+		}
+		line := op + mgGenTarget(r)
 		if r.Intn(4) == 0 {
 			line += " / " + mgGenTarget(r)
 		}
@@ -1020,6 +1141,9 @@ func (c *mgComp) Exhaustive(tier string) [][]string {
 		if a.kind != 'M' {
 			places = append(places, mgAtDial)
 		}
+		if a.kind == 'O' || a.kind == 'S' || a.kind == 'R' {
+			places = append(places, mgAtDialOK)
+		}
 		if a.kind == 'R' {
 			places = append(places, mgStreamPoints(a.msgs)...)
 		}
@@ -1049,6 +1173,45 @@ func (c *mgComp) Exhaustive(tier string) [][]string {
 	}
 	for _, f := range final {
 		emit(f)
+	}
+	// the connection side: every single attempt once more with the real connection.Manager underneath, with a
+	// receive timeout, and with two next hops; and a cancelled-while-dialling attempt followed by a session
+	nAs := 0
+	emitAs := func(op, hdr, script string) {
+		nAs++
+		if genProfile != "conn" && tier == "quick" && nAs%3 != 0 {
+			return // C13's quick tier samples this part (C16 runs all of it)
+		}
+		cur = append(cur, op+" "+hdr+" P- "+script)
+		if len(cur) == 25 {
+			seqs = append(seqs, append(cur, "end"))
+			cur = []string{"new"}
+		}
+	}
+	for _, x := range append(append([]string{}, alpha...), final...) {
+		emitAs("runc", "T0", x)
+		emitAs("runc", "T2", x)
+		emitAs("run", "T2", x)
+		if strings.Contains(x, "+ks") || strings.Contains(x, "+xs") || strings.Contains(x, "+kd") || strings.Contains(x, "+xd") {
+			emitAs("run", "T1", x)
+			emitAs("runc", "T3", x)
+		}
+		if strings.Contains(x, "+ks") || strings.Contains(x, "+kd") {
+			emitAs("run", "T0", x+" Ru!")
+			emitAs("runc", "T0", x+" Rus.+xs")
+		}
+	}
+	for _, b := range []string{"R~", "Rus~", "R~+ks", "Ru~+xs"} {
+		// silence beyond the receive timeout (the timeout goroutine's Reconnect releases the connection)
+		emitAs("runc", "T1", b)
+		emitAs("run", "T3", b)
+	}
+	if genProfile == "conn" {
+		// C16 runs only this part of the scope (the session discipline part is C13's)
+		if len(cur) > 1 {
+			seqs = append(seqs, append(cur, "end"))
+		}
+		return seqs
 	}
 	second := alpha
 	if tier == "quick" {
